@@ -1,6 +1,6 @@
 """C16 — the unsat-core cache never changes a verdict.
 
-Obligations: translators T-unsatcore / T-coreids / T-coreappend, Props/C16.vo, lint.
+Obligations: translators T-unsatcore / T-coreids / T-coreappend / T-cacheusers, Props/C16.vo, lint.
 Ties (real halmos code vs extracted model vs an independent python rendering of the spec):
   L1  parse_unsat_core, check_unsat_cores, dump, `\\s`;  solve_end_to_end + the real
       _solve_end_to_end_callback driven through scripted solver replies (step correspondence
@@ -8,10 +8,21 @@ Ties (real halmos code vs extracted model vs an independent python rendering of 
   L2  real sevm.Path trees (branch/activate/append/to_smt2) solved by the real z3 binary through
       solve_end_to_end, cache on vs off vs brute-force ground truth, with the id-stability
       monitor (H2) and forced gc between paths;
-  L3  (harness/props/C16_e2e.py) python -m halmos on fabricated multi-path tests, cache on vs off,
-      with the same monitor installed inside the halmos process.
+  L3  (harness/props/C16_e2e.py) python -m halmos on fabricated multi-path tests (assertion, STUCK and normal
+      leaves under conditions that are contradictory only after refinement), cache on vs off, with the same
+      monitor installed inside the halmos process; in sync mode (the solver answers before the engine goes on)
+      every test is replayed in the extracted run_test model (c16_test) on the solver replies the
+      implementation saw: outputs, stuck/normal counts, exit code, who skipped the solver, final cache;
+      racing projects (two solver workers) are replayed through sched_run (c16_sched) on the schedule
+      of path / look-up / callback events the run went through.
+      Invariant projects (contract T + target C, --invariant-depth 1): ONE function context fed by several
+      independent runs -- the case in which only halmos' own bookkeeping keeps the conditions of a finished run
+      alive.  The H2 monitor there also probes z3's id free list: after a forced collection a batch of fresh terms
+      is allocated before every query; one of them receiving the id of a condition of an earlier assertion query
+      of the function context still running = that id was released and now denotes something else.
 """
 import contextlib
+import inspect
 import io
 import json
 import os
@@ -26,19 +37,28 @@ from harness import common
 from harness.common import Model
 
 PID = "C16"
-TRANSLATORS = ["T-unsatcore", "T-coreids", "T-coreappend"]
+TRANSLATORS = ["T-unsatcore", "T-coreids", "T-coreappend", "T-cacheusers"]
 KNOWN = []   # genuine defects of halmos found by this check (none: see the final report)
 
 PARTIAL = (
     "H2 (identifier stability: within one function context a z3 AST id never denotes two different "
     "constraints) is a hypothesis of C16_sound/C16_transparent; it is a property of z3's id allocator and "
     "CPython reference counting that the Coq model cannot express. It is only MONITORED here (L2 on real "
-    "Path objects, L3 inside real halmos runs, with forced gc between paths); C16_needs_stability_refuted "
-    "shows it cannot be dropped. Thread interleavings of the solver pool are covered by the event-history "
-    "theorem (C16_sound, C16_transparent_any_state) but the ties run queries sequentially per context."
+    "Path objects, L3 inside real halmos runs incl. invariant tests whose function context spans several runs, with forced gc "
+    "between paths and a probe of z3's id free list before every query); C16_needs_stability_refuted "
+    "shows it cannot be dropped. Thread interleavings of the solver pool are covered by the event-history / any-schedule "
+    "theorems (C16_sound, C16_transparent_any_state, C16_test_transparent_any_schedule); the L1/L2 ties run queries sequentially "
+    "per context, L3 replays in the model the schedule each racing run (two workers) actually went through, as linearised by one "
+    "lock held around every look-up and every callback (the instrumentation serialises look-ups against callbacks; it does not "
+    "choose the order). "
+    "The two semantics of C16_test_sound/_transparent (query as posed vs after refine()) are section variables related "
+    "by `every real valuation is an abstract one`; that halmos' refine() implements exactly that relation is C04's subject. "
+    "A consumer of the solver whose code has a shape T-cacheusers does not know (anything but solve_low_level / "
+    "solve_end_to_end / a check_unsat_cores look-up, combined by if/and/or/not) is reported as a broken translator, not modelled."
 )
 ASSUMPTIONS = [
-    "H1: the external solver's unsat cores are correct (a non-empty core names an unsatisfiable subset of the query)",
+    "H1: the external solver's unsat cores are correct (a non-empty core names an unsatisfiable subset of the query -- as posed for the un-refined file, under the real operations for the refined file)",
+    "abstraction: a valuation satisfying constraints under the real mul/div/... satisfies them for some interpretation of halmos' f_evm_* symbols",
     "H2: identifier stability within a function context (monitored, not proved)",
     "H3 (only for exact equality of verdicts): the uncached pipeline answers unsat on really unsatisfiable queries (no timeout/error); without it C16_monotone / C16_fail_iff apply",
     "the solver's answer (sat/unsat/unknown) does not depend on the unsat-core instrumentation of the query file (named assertions, :produce-unsat-cores); a solver that times out only on the instrumented file is counted, not flagged (seen once under heavy machine load)",
@@ -308,7 +328,10 @@ class Ctx:
             out = solve_end_to_end(pc)
             fut = Future()
             fut.set_result(out)
-            self.handler._solve_end_to_end_callback(fut, ex=None, path_ctx=pc, description="")
+            # the callback as handle_assertion_violation binds it; which of the optional bindings exist is not C16's subject
+            cb = self.handler._solve_end_to_end_callback
+            params = inspect.signature(cb).parameters
+            cb(fut, **{k: v for k, v in dict(ex=None, fun_info=None, path_ctx=pc, description="").items() if k in params})
         solved = os.path.exists(os.path.join(self.dd, f"{pid}.smt2"))
         res = str(out.result)
         r = {"kind": res if res in ("sat", "unsat", "unknown") else "err"}
@@ -660,11 +683,12 @@ def run(rep, tier):
             rep.fail("broken-tie", "extracted model driver does not build: " + log[-400:], case={})
     m = Model(exe) if exe else None
     r = common.rng(PID)
-    nfail = [0]
+    nfail = {}
 
     def fail(kind, what, case, **kw):
-        nfail[0] += 1
-        if nfail[0] <= 12:
+        # at most 12 reports per kind: a flood of broken-tie reports of one stage must not hide a failing input of a later one
+        nfail[kind] = nfail.get(kind, 0) + 1
+        if nfail[kind] <= 12:
             rep.fail(kind, what, case=case, **kw)
 
     pool = Pool(min(8 if tier == "quick" else 16, os.cpu_count() or 4), initializer=_quiet)
@@ -764,7 +788,7 @@ def run(rep, tier):
                             continue
                         calls.append(("c16_step", [1 if mode == "on" else 0, 1 if q["refine"] else 0] + enc_cores(obs[qi]["before"]) + enc_strlist(q["ids"]) + enc_reply(q["mabs"]) + enc_reply(q["mref"])))
                         index.append((hi, mode, qi))
-            mres = dict(zip(index, m.parallel_batch(calls)))
+            mres = dict(zip(index, m.parallel_batch(calls))) if calls else {}   # no call: every history raised (reported below)
         refuted_replayed = False
         for hi, h in enumerate(hs):
             fam = h["family"]
@@ -868,16 +892,16 @@ def run(rep, tier):
     if os.environ.get("C16_SKIP_E2E"):          # developer knob (mutation campaigns); never set by bin/check
         rep.coverage["L3_skipped"] = True
     else:
-        C16_e2e.run_e2e(rep, tier, r, fail)
+        C16_e2e.run_e2e(rep, tier, r, fail, m)
     _t(rep, "e2e")
 
     rep.coverage["traces_validated_against_impl"] = rep.evaluations
     return rep.finish(
-        checker_cmd="make -C coq Props/C16.vo (coq_makefile, coqc 8.16.1) after regenerating coq/Gen/{GenUnsatCore,GenCoreIds,GenCoreAppend}.v from /repo/src/halmos/{solve,sevm,__main__}.py",
+        checker_cmd="make -C coq Props/C16.vo (coq_makefile, coqc 8.16.1) after regenerating coq/Gen/{GenUnsatCore,GenCoreIds,GenCoreAppend,GenCacheUsers}.v from /repo/src/halmos/{solve,sevm,__main__}.py",
         trusted_base=common.TRUSTED_BASE_COMMON + ["the real z3 binary as truthful solver in the L2/L3 ties (cross-checked against enumeration in L2)", "sh + a one-line script as scripted solver in the L1 history tie"],
         assumptions=ASSUMPTIONS,
         partial=PARTIAL,
-        rule="cases: (space) every Unicode code point against \\s and str.split; (parse) solver replies: generated well-formed replies with Unicode white space / optional error line / 0-12 ids, malformed-by-construction replies, single-character mutations (model vs implementation only); (check) random id lists and core lists; (dump) query files; (history) 2-8 queries per function context over a pool of ids denoting literals, scripted solver replies (truthful with correct/empty/missing/odd cores; adversarial; id-reusing), run through the real solve_end_to_end and the real callback with cache on and off, compared step by step with the model from the implementation's own cache state and with the truth table; (tree) random condition trees built with real Path.branch/activate, every leaf serialised by Path.to_smt2 and solved by real z3, gc.collect() between paths, id->sexpr monitor; (e2e) halmos runs on fabricated bytecode tests with cache on and off. A history/tree/e2e case is non-trivial when at least one query is answered from the cache; parse cases unless trivially short; distinct by hash of the case",
+        rule="cases: (space) every Unicode code point against \\s and str.split; (parse) solver replies: generated well-formed replies with Unicode white space / optional error line / 0-12 ids, malformed-by-construction replies, single-character mutations (model vs implementation only); (check) random id lists and core lists; (dump) query files; (history) 2-8 queries per function context over a pool of ids denoting literals, scripted solver replies (truthful with correct/empty/missing/odd cores; adversarial; id-reusing), run through the real solve_end_to_end and the real callback with cache on and off, compared step by step with the model from the implementation's own cache state and with the truth table; (tree) random condition trees built with real Path.branch/activate, every leaf serialised by Path.to_smt2 and solved by real z3, gc.collect() between paths, id->sexpr monitor; (e2e) halmos runs on fabricated bytecode projects with cache on and off: a hand-made corpus plus random projects of decision trees over three uint256 arguments whose leaves panic, get STUCK (jump to a symbolic destination) or stop; most trees contain a gadget -- a conjunction contradictory under the real mul/div and satisfiable for the uninterpreted abstraction -- above a subtree over the third argument, so that the same stored core is met again by later assertion and stuck paths in both exploration orders; sync projects (solver answers before the next path) are replayed test by test in the extracted run_test model, one project lets two solver workers race the engine and each other and is replayed through the model's sched_run on the logged schedule of path / look-up / callback events; invariant projects (test contract + target contract with one setter per tree, depth 1) make one function context span several independent runs, half of them without stuck leaves (a stuck path pins its conditions until the verdict), with the id monitor and the free-list probe on. A history/tree/e2e case is non-trivial when at least one query is answered from the cache; parse cases unless trivially short; distinct by hash of the case",
     )
 
 
@@ -893,6 +917,10 @@ def replay(rep, body):
             o = impl_history(case["history"])
             for mode in ("on", "off"):
                 print("  cache", mode, [(x.get("hit"), x.get("reply")) for x in o[mode]])
+        elif case.get("kind") == "e2e" and "trees" in case:
+            from harness.props import C16_e2e
+
+            C16_e2e.replay_case(case)
         elif case.get("kind") == "tree" and "tree" in case:
             o = impl_tree({"tree": case["tree"]})
             print("  on :", o["on"])
